@@ -88,6 +88,13 @@ NEEDS = {
  'C09-sse-mismatch-skips-group': 'x86_64, an index of 16 or 17 bits, and two live keys whose hashes agree in bits 0..48 and differ in bit 48 or 49 stored in the same aligned group of four slots, the searched one not first',
  'C13-short-log-file-gets-bogus-id': 'a log file of 1..8 bytes at open whose id bytes decode below the first id of the real logs, and an oldest real log that does not start at record 1',
  'C14-next-part-link-read-past-overlay': 'a chained value overwritten with a different number of parts and changed again (removed / overwritten) before the first record is enacted',
+ 'C11-deferral-check-skipped-without-live-reader': "an InsertTree that re-uses nodes of tree A committed while A's reader is locked and a DereferenceTree(A) is queued; then the client drops the guard AND its last Arc of the reader before the log worker pops the removal",
+ 'C02-index-open-rejects-short-file': 'a crash exactly between the creation of an index file and its set_len (first record enacted into a new or freshly grown index table)',
+ 'C17-version-guard-off-by-one': 'a database in format version exactly 4 (the oldest supported), an administration call that rewrites the metadata, and another column with uniform keys or multipart values',
+ 'C20-inplace-reopen-removed': 'an in-place migration (overwrite = true) and an I/O failure while the destination handle shuts down (enactment of its last log fails in kill_logs, which only logs the error)',
+ 'C16-failed-truncation-entry-dropped': 'an I/O fault in the rewind / set_len of a finished log inside Log::clean_logs that is not the last one of the batch, later logs truncated by an unaffected thread (shutdown), and later transactions touching the same entries',
+ 'C12-torn-append-rolled-back-under-bufwriter': 'an I/O error in the middle of appending a record while the start of the record is still in the 8 KiB buffer, an earlier complete record in the same file, one more turn of the flush and enact stages, then a stop',
+ 'C10-node-changes-planned-before-keyed-changes': 'a ref-counted multitree column and one commit [ReferenceTree(K), DereferenceTree(K)] on a tree whose count is exactly 1',
 }
 ORIGIN = {
  'C01-overlay-entry-keeps-old-tag': 'fired through existing rules (set-always-published) somewhat by accident of the entry API; the principled rule was added afterwards (commit-overlay entries are only inserted whole, tag and value together: C01 3w / C05 3ow)',
@@ -170,6 +177,13 @@ ORIGIN = {
  'C07-writer-search-skips-key-check': 'rule added after this seed exposed the gap (C07 5 / C09 9 / C01 7: the writer-side index search compares the stored key tail)',
  'C13-short-log-file-gets-bogus-id': 'C16 2h caught it as written; the rule is now shared with C13 (6g-6i) and extended (header bytes obtained with read_exact only)',
  'C14-next-part-link-read-past-overlay': 'caught by the shadowed-reads rule of C01/C05 as written; the rule is now also run under C14 (8b)',
+ 'C11-deferral-check-skipped-without-live-reader': 'rule added after this seed exposed the gap (C11 1c2: the queue scan is reached whatever the state of the reader)',
+ 'C02-index-open-rejects-short-file': 'rule added after this seed exposed the gap (C02 10c/10d: an existing table file is sized at open, its length is no verdict)',
+ 'C17-version-guard-off-by-one': 'rule added after this seed exposed the gap (C17 6a: the metadata writer never compares the version it is given)',
+ 'C20-inplace-reopen-removed': 'rule added after this seed exposed the gap (C20 5m: the destination is re-opened between its last commit and the move of its files)',
+ 'C16-failed-truncation-entry-dropped': 'rule added after this seed exposed the gap (C16 2r / C12 3r: no log file handle is destroyed in clean_logs); the requeue rule 2q alone was satisfied by the seed',
+ 'C12-torn-append-rolled-back-under-bufwriter': 'caught by the rule written for F45 (the error arm of the append gives up the writer)',
+ 'C10-node-changes-planned-before-keyed-changes': 'rule added after this seed exposed the gap (C10 9a: keyed changes of a set are planned before its node changes)',
 }
 NOT_DETECTED = {
  'C06-tier-from-uncompressed-length': 'value-level: the size tier becomes Option::min of two searches, and None (= blob table) orders below Some(k); which tier index a length maps to is arithmetic over table sizes, outside the structural clauses claimed for C06 (layout constants, same-tier replacement, size-word bound). A rule pinning the shape of the tier computation ("exactly one search, no min/max") would also fire on harmless rewrites and was not written',
